@@ -102,7 +102,7 @@ class Refine(FunctionContract):
     """
     prop = "C13"
     target = SP + "CTMCGrid.refine"
-    cases = (1, 2)
+    cases = (1, 2, "2-per-axis")
 
     def __init__(self):
         self.name = "CTMCGrid.refine"
@@ -111,6 +111,8 @@ class Refine(FunctionContract):
         self.modular = (self.mid,)
 
     def setup(self, vc, d):
+        per_axis = d == "2-per-axis"
+        d = 2 if per_axis else d
         ax = vc.seq("axis", "r", min_len=3)
         n = ax.length
         h, o = vc.real("h"), vc.int("origin")
@@ -118,19 +120,25 @@ class Refine(FunctionContract):
         J = I // 2
         vc.assume(And(h > 0, o >= 1, o <= n - 2, I >= 0, I < 2 * n - 2))
         Js = [J, J + 1, o, o - 1, 0, n - 1, n - 2]
-        vc.assume(increasing(ax))
-        # instances of the precondition `strictly increasing` at the tracked indices
-        for j in Js:
-            vc.assume(Implies(And(j >= 0, j < n - 1), ax.raw(j) < ax.raw(j + 1)))
-        vc.assume(And(ax.raw(o) == 0, ax.raw(o - 1) == -h, ax.raw(o + 1) == h))
+        olds = [ax] * d
+        if per_axis:
+            bx = vc.seq("axis_b", "r", min_len=3)
+            vc.assume(bx.length == n)          # same number of states (the origin index is shared by construction)
+            olds = [ax, bx]
+        for a_ in (olds if per_axis else [ax]):
+            vc.assume(increasing(a_))
+            # instances of the precondition `strictly increasing` at the tracked indices
+            for j in Js:
+                vc.assume(Implies(And(j >= 0, j < n - 1), a_.raw(j) < a_.raw(j + 1)))
+            vc.assume(And(a_.raw(o) == 0, a_.raw(o - 1) == -h, a_.raw(o + 1) == h))
         # contract of the grid's `middle`, for all arguments (proved for the arithmetic middle in ArithmeticMiddle)
         x, y = z3.Real("mx"), z3.Real("my")
         vc.assume(Sym(z3.ForAll([x, y], z3.Implies(x < y, z3.And(x < MIDF(x, y), MIDF(x, y) < y)), patterns=[MIDF(x, y)]), "b"))
-        grid = vc.obj(SP + "CTMCGrid", axes=[ax] * d, dimension=d, h=h,
+        grid = vc.obj(SP + "CTMCGrid", axes=list(olds), dimension=d, h=h,
                       origin_coordinate=vc.new(GR + "Coordinates", o if d == 1 else [o] * d),
-                      truncations=[(ax.raw(0), ax.raw(n - 1))] * d)
+                      truncations=[(a_.raw(0), a_.raw(n - 1)) for a_ in olds])
         g = vc.ghost
-        g["ax0"], g["h0"], g["o0"], g["d"], g["I"], g["J"], g["Js"] = ax, h, o, d, I, J, Js
+        g["ax0"], g["h0"], g["o0"], g["d"], g["I"], g["J"], g["Js"], g["olds"] = ax, h, o, d, I, J, Js, olds
         return dict(self=grid)
 
     def ensures(self, result, self_=None):
@@ -142,9 +150,10 @@ class Refine(FunctionContract):
         ov = self_.fields["origin_coordinate"].fields["value"]
         out["h-halved"] = 2 * self_.fields["h"] == h0
         out["origin-index-doubled"] = (ov == 2 * o0) if d == 1 else And(*[c == 2 * o0 for c in ov])
-        out["truncations-unchanged"] = And(*[And(t[0] == old.raw(0), t[1] == old.raw(n - 1)) for t in self_.fields["truncations"]])
+        out["truncations-unchanged"] = And(*[And(t[0] == a_.raw(0), t[1] == a_.raw(n - 1)) for t, a_ in zip(self_.fields["truncations"], g["olds"])])
         for kk, new in enumerate(self_.fields["axes"]):
             p = f"axis{kk}:"
+            old = g["olds"][kk]
             if not isinstance(new, SymSeq):
                 out[p + "is-array"] = False
                 continue
@@ -159,12 +168,23 @@ class Refine(FunctionContract):
         return out
 
     def replay(self, model, clause, case):
-        from rpylib.grid.spatial import CTMCUniformGrid
+        from rpylib.grid.spatial import CTMCUniformGrid, CTMCGrid
+        bad = False
+        if case >= 2:
+            # per-axis storage with different values on each axis, refined twice
+            axes = [np.array([-1.0, -0.4, -0.25, 0.0, 0.25, 0.7, 2.0]), np.array([-3.0, -0.9, -0.25, 0.0, 0.25, 0.3, 0.5])][:case]
+            g2 = CTMCGrid(h=0.25, origin_coordinate=3, axes=[a.copy() for a in axes])
+            for _ in range(2):
+                prev = [a.copy() for a in g2.axes]
+                g2.refine()
+                for a, b in zip(prev, g2.axes):
+                    bad |= len(b) != 2 * len(a) - 1 or not np.allclose(b[::2], a) or not np.allclose(b[1::2], 0.5 * (a[:-1] + a[1:]))
+            if bad:
+                return (True, {"per_axis_grid": [a.tolist() for a in axes], "after_two_refinements": [a.tolist() for a in g2.axes]})
         g = CTMCUniformGrid.create_from_fixed_nb_of_points(h=0.25, nb_of_points=7, dimension=case)
         old = [a.copy() for a in g.axes]
         o0, h0, tr = g.origin_coordinate.value, g.h, list(g.truncations)
         g.refine()
-        bad = False
         for a, b in zip(old, g.axes):
             bad |= len(b) != 2 * len(a) - 1 or not np.allclose(b[::2], a) or not np.allclose(b[1::2], 0.5 * (a[:-1] + a[1:])) or not np.all(np.diff(b) > 0)
         oc = g.origin_coordinate.value
